@@ -23,6 +23,10 @@ type Corpus struct {
 	Extra func(c *vp.Child, cs *Case, p *lg.Program, id string)
 }
 
+// AfterCase, if set, is called after every decided case of Run and RunFixed
+// (additional monitors of a property, e.g. the goroutine-leak monitor).
+var AfterCase func(c *vp.Child, cs *Case, id string)
+
 // GenProgram generates program i of a corpus (a pure function of seed, salt, i).
 func GenProgram(seed, salt int64, i int, opt func(r *rand.Rand) lg.GenOptions) (*lg.Program, *rand.Rand) {
 	r := rand.New(rand.NewSource(seed*1000003 + salt*100000007 + int64(i)*7919 + 17))
@@ -77,6 +81,9 @@ func (cp Corpus) Run(c *vp.Child) {
 				}
 				if cp.Extra != nil {
 					cp.Extra(c, cs, p, id)
+				}
+				if AfterCase != nil {
+					AfterCase(c, cs, id)
 				}
 			}
 		}
@@ -166,6 +173,9 @@ func RunFixed(c *vp.Child, n int, nstyles int, get func(i int) (*lg.Program, str
 				c.Violation(cs.Mis.What, label+": "+Sig(cs), cs.Mis.String()+"\n(reference: "+cs.Want.Kind+", "+fmt.Sprint(len(cs.Want.Trace))+" events)", "-- "+label+"\n"+text)
 			} else if c.WantSample() && si == 0 {
 				c.Sample(map[string]interface{}{"case": label, "program": text, "events": cs.Events, "reference_trace": cs.Want.Trace})
+			}
+			if AfterCase != nil {
+				AfterCase(c, cs, id)
 			}
 		}
 	}
